@@ -326,6 +326,7 @@ func project() map[string]interface{} {
 	am, rm := core.VerifBlockMarks()
 	st["addMark"] = am
 	st["rmMark"] = rm
+	st["reorgMark"] = core.VerifReorgMark()
 	executed := make([]bool, len(allTx))
 	pending := make([]bool, len(allTx))
 	received := map[common.Hash]bool{}
